@@ -194,6 +194,64 @@ pub mod noserde {
     }
 }
 
+// ------------------------------------------------------------------ family member 6
+pub mod rnames {
+    use super::*;
+    /// method names that begin like the raw-identifier prefix, single letters, trailing digits
+    #[tarpc::service]
+    pub trait Registry {
+        async fn r(x: u32) -> u32;
+        async fn read(x: u32) -> u32;
+        async fn rr_lookup(x: u32) -> u32;
+        async fn re_(x: u32) -> u32;
+        async fn x2(x: u32) -> u32;
+    }
+    #[derive(Clone)]
+    pub struct Impl;
+    impl Registry for Impl {
+        async fn r(self, c: Context, x: u32) -> u32 { seen(1, x as i64, 0, 0, &c); x.wrapping_add(1) }
+        async fn read(self, c: Context, x: u32) -> u32 { seen(2, x as i64, 0, 0, &c); x.wrapping_add(2) }
+        async fn rr_lookup(self, c: Context, x: u32) -> u32 { seen(3, x as i64, 0, 0, &c); x.wrapping_add(3) }
+        async fn re_(self, c: Context, x: u32) -> u32 { seen(4, x as i64, 0, 0, &c); x.wrapping_add(4) }
+        async fn x2(self, c: Context, x: u32) -> u32 { seen(5, x as i64, 0, 0, &c); x.wrapping_add(5) }
+    }
+}
+
+/// An RPC argument named like the glue's own context variable.  The definition is either
+/// rejected at compile time (today: E0415 in the generated client method) or, if a version of the
+/// macro accepts it, it must not be miscompiled: the implementor's `context` is the REQUEST's
+/// context and the argument arrives as the argument.
+#[cfg(feature = "arg_ctx")]
+pub mod argctx {
+    use super::*;
+    #[tarpc::service]
+    pub trait Relay {
+        async fn relay(ctx: Context, payload: u32) -> u32;
+    }
+    #[derive(Clone)]
+    pub struct Impl;
+    pub static mut ARG_DL: i64 = 0;
+    impl Relay for Impl {
+        async fn relay(self, context: Context, ctx: Context, payload: u32) -> u32 {
+            seen(1, payload as i64, 0, 0, &context);
+            unsafe { ARG_DL = dl(&ctx); }
+            payload ^ 0xABCD
+        }
+    }
+    pub fn run() {
+        let client = RelayClient::from(Direct(Impl.serve()));
+        let (d_req, d_arg) = (any_u16() as i64, any_u16() as i64);
+        let x = any_u32();
+        let v = ready(client.relay(ctx(d_req), ctx(d_arg), x));
+        check_seen(1, x as i64, 0, 0, d_req);
+        assert!(unsafe { ARG_DL } == d_arg);
+        assert!(v == x ^ 0xABCD);
+        witness!(d_req != d_arg, "request context and context-typed argument differ");
+        witness!(d_req == d_arg, "both equal");
+        std::mem::forget(client);
+    }
+}
+
 #[cfg(feature = "neg_new")]
 pub mod neg_new {
     #[tarpc::service]
@@ -299,4 +357,35 @@ harnesses! {
         std::mem::forget(client);
     }
     fn glue_noserde() [unwind 12] { noserde::run() }
+    fn glue_rnames() [unwind 20] {
+        use rnames::*;
+        let client = RegistryClient::from(Direct(Impl.serve()));
+        let d = any_u16() as i64;
+        let x = any_u32();
+        let which = any_u8();
+        assume(which < 5);
+        let (tag, v) = match which {
+            0 => (1, ready(client.r(ctx(d), x))),
+            1 => (2, ready(client.read(ctx(d), x))),
+            2 => (3, ready(client.rr_lookup(ctx(d), x))),
+            3 => (4, ready(client.re_(ctx(d), x))),
+            _ => (5, ready(client.x2(ctx(d), x))),
+        };
+        check_seen(tag, x as i64, 0, 0, d);
+        assert!(v == x.wrapping_add(tag as u32));
+        witness!(which == 0, "single-letter method r");
+        witness!(which == 2, "method rr_lookup");
+        assert!(name_is(RegistryRequest::R { x }.name(), "Registry.r"));
+        assert!(name_is(RegistryRequest::Read { x }.name(), "Registry.read"));
+        assert!(name_is(RegistryRequest::RrLookup { x }.name(), "Registry.rr_lookup"));
+        assert!(name_is(RegistryRequest::Re { x }.name(), "Registry.re_"));
+        assert!(name_is(RegistryRequest::X2 { x }.name(), "Registry.x2"));
+        std::mem::forget(client);
+    }
+    fn glue_ctx_arg() [unwind 12] {
+        #[cfg(feature = "arg_ctx")]
+        argctx::run();
+        #[cfg(not(feature = "arg_ctx"))]
+        { witness!(true, "feature off"); witness!(true, "feature off"); }
+    }
 }
